@@ -26,7 +26,7 @@ ASSUMPTIONS = [
     'by the statement and are not compared',
 ]
 ANCHORS = ['Table.concat', 'concat']
-REQUIRED = ['flat_operand_cases', 'concatenated_again_after_in_place_change', 'names_shared_between_the_axes', 'non_disjoint_under_relaxed_profile', 'hollow_operand_cases', 'hollow_operand_concatenated', 'concat_calls', 'operand_list_reused', 'branch_padding', 'branch_resort',
+REQUIRED = ['concatenated_with_itself_refused', 'flat_operand_cases', 'concatenated_again_after_in_place_change', 'names_shared_between_the_axes', 'non_disjoint_under_relaxed_profile', 'hollow_operand_cases', 'hollow_operand_concatenated', 'concat_calls', 'operand_list_reused', 'branch_padding', 'branch_resort',
             'branch_passthrough', 'non_disjoint_refused', 'via_biom_concat',
             'via_table_concat', 'single_table_arg', 'axis_sample',
             'axis_observation', 'k1', 'k2', 'k3plus']
@@ -42,8 +42,36 @@ def plan(tier):
             'timeout': 900 if tier == 'quick' else 3600}
 
 
+def self_operand_case(ctx, index, r):
+    """A table concatenated with itself (the same object among the
+    operands) shares every id with itself: refused, nothing changed."""
+    import biom
+    spec = gen.gen_spec(r, max_n=4, max_m=4)
+    t = gen.apply_layout(ctx.biom, spec, r.choice(RECIPES), r)
+    before = snap.snap(t)
+    axis = r.choice(['sample', 'observation'])
+    how = r.choice(['t.concat([t])', 't.concat(t)', 'biom.concat([t, t])'])
+    desc = {'table': spec.describe(), 'self_operand': how, 'axis': axis}
+    try:
+        if how == 't.concat([t])':
+            t.concat([t], axis=axis)
+        elif how == 't.concat(t)':
+            t.concat(t, axis=axis)
+        else:
+            biom.concat([t, t], axis=axis)
+    except Exception:
+        ctx.count('concatenated_with_itself_refused')
+    else:
+        raise Violation('C10/non-disjoint-accepted', 'a table was '
+                        'concatenated with itself; case=%r' % (desc,))
+    oracles.unchanged(t, before, 'C10/operand-modified', desc, 'operand')
+    ctx.case(desc, True)
+
+
 def run_case(ctx, index):
     r = ctx.rng(index)
+    if index % 31 == 17:
+        return self_operand_case(ctx, index, r)
     axis = 'sample' if index % 2 == 0 else 'observation'
     inv = 'observation' if axis == 'sample' else 'sample'
     k = r.choice([1, 2, 2, 2, 3, 3, 4, 5])
